@@ -45,7 +45,9 @@ def gen_spec(rng, fmt):
     spec = {'fmt': fmt, 'nx': rng.randrange(1, 6), 'ny': rng.randrange(1, 6),
             'nz': rng.randrange(1, 4), 'nt': rng.randrange(1, 5),
             'sdate': year * 1000 + jday, 'stime': float(hour),
-            'special': rng.random() < 0.5}
+            'special': rng.random() < 0.5,
+            # a computed source often carries float64 arrays (values representable in float32)
+            'srcdtype': rng.choice(['f', 'f', 'd'])}
     if fmt in ('uamiv', 'lateral_boundary'):
         n = rng.randrange(1, 5)
         spec['species'] = rng.sample(SPECIES, n)
@@ -176,7 +178,7 @@ def build_source(spec, truth):
             dims = ('TSTEP', 'ROW', 'COL')
         else:
             dims = ('TSTEP', 'LAY', 'ROW', 'COL')
-        v = f.createVariable(k, 'f', dims)
+        v = f.createVariable(k, spec.get('srcdtype', 'f'), dims)
         v.units = 'ppm'.ljust(16)
         v.long_name = k.ljust(16)
         v.var_desc = k.ljust(80)
